@@ -22,21 +22,50 @@ Example C12_order_nonvacuous :
   (s.(delivered), s.(pending), s.(taken), s.(inp_rest)) = ([101], [], [1], [2;3;4]).
 Proof. vm_compute. split; reflexivity. Qed.
 
-(* C12.2 the consumer is always woken: a consumer that returned Pending never has its waker sitting in `notify` while
-   there is something to read; the waker has been called ([cwoken]) or has been taken and is about to be called
-   ([cons_wake_inflight]: the running job is at l.331/l.362/l.380 with the taken waker) *)
+(* C12.2 the consumer is always woken, for a consumer that may poll at ANY time, each poll with a fresh waker: provided
+   poll_next replaces the stored waker (the code, l.504; fact f_poll_next_replaces_waker), a consumer that returned
+   Pending never has a waker sitting in `notify` while there is something to read, and the waker of its MOST RECENT
+   Pending poll ([clatest]) has been called ([cwoken]) or has been taken and is about to be called
+   ([cons_wake_inflight]: the running job is at l.331/l.362/l.380 with that waker).  Wakes of older wakers are no-ops. *)
 Theorem C12_consumer_always_woken :
-  forall (F : pfacts) (f : nat -> nat) inputs ext tr s,
+  forall (F : pfacts) (f : nat -> nat), F.(f_poll_next_replaces_waker) = true ->
+  forall inputs ext tr s,
     run F f (init F inputs ext) tr = Some s ->
     (s.(cst) = CPend \/ s.(cst) = CRun true) -> (s.(pending) <> [] \/ s.(closed) = true) ->
-    s.(notify) = false /\ (s.(cwoken) = true \/ cons_wake_inflight s = true).
+    s.(notify) = None /\ (s.(cwoken) = true \/ cons_wake_inflight s = true).
 Proof. exact consumer_always_woken. Qed.
 Print Assumptions C12_consumer_always_woken.
+
+(* a poll_next that stores the waker only when none is stored keeps a stale waker: the consumer that is actually waiting
+   is never woken (Scenarios.stale_waker_trace: probe, real poll, an item arrives, the input ends; terminal state with the
+   consumer asleep, pending = [101], closed) *)
+Theorem C12_consumer_always_woken_refuted : ~ C12_woken_statement facts_stale_waker.
+Proof. exact C12_woken_refuted_stale_waker. Qed.
+Print Assumptions C12_consumer_always_woken_refuted.
+Theorem C12_terminal_complete_refuted : ~ C12_terminal_statement facts_stale_waker.
+Proof. exact C12_terminal_refuted_stale_waker. Qed.
+Print Assumptions C12_terminal_complete_refuted.
+Theorem C12_stale_waker_witness :
+  exists s, run facts_stale_waker f100 (init facts_stale_waker [1] true) stale_waker_trace = Some s /\
+            s.(cst) = CPend /\ s.(pending) = [101] /\ s.(closed) = true /\ s.(cwoken) = false /\
+            cons_wake_inflight s = false /\ s.(delivered) = [] /\ dropped s = false /\
+            terminal facts_stale_waker f100 s.
+Proof. exact stale_waker_state. Qed.
+Print Assumptions C12_stale_waker_witness.
 
 Example C12_consumer_always_woken_nonvacuous :
   match run facts_unrepaired f100 (init facts_unrepaired [1;2] true)
           (replicate 6 AProd ++ [ACPoll; ACons; AItem; AEnv; AEnv] ++ replicate 7 AProd) with
   | Some s => (s.(cst), s.(pending), s.(cwoken), cons_wake_inflight s) = (CPend, [101], false, true)
+  | None => False
+  end.
+Proof. vm_compute. reflexivity. Qed.
+(* with a spurious poll in between: the waker of the probe is replaced, the in-flight wake is that of the latest waker *)
+Example C12_consumer_always_woken_nonvacuous_probe :
+  match run facts_repaired f100 (init facts_repaired [1;2] true)
+          (replicate 6 AProd ++ [ACPoll; ACons; ACProbe; ACons; AItem; AEnv; AEnv] ++ replicate 7 AProd) with
+  | Some s => (s.(cst), s.(pending), s.(cwoken), s.(clatest), s.(running), cons_wake_inflight s)
+              = (CPend, [101], false, 1, Some (1, JWake (Some 1) KLoop), true)
   | None => False
   end.
 Proof. vm_compute. reflexivity. Qed.
@@ -58,8 +87,9 @@ Proof. exact backpressure_release. Qed.
 Print Assumptions C12_backpressure_release.
 
 Theorem C12_consumer_poll_takes_backpressure :
-  forall (F : pfacts) (f : nat -> nat) s s',
-    step F f s ACPoll = Some s' -> s'.(cst) <> CDone -> s'.(bp) = None /\ s'.(cwk) = wk_of s.(bp).
+  forall (F : pfacts) (f : nat -> nat) s a s',
+    a = ACPoll \/ a = ACProbe ->
+    step F f s a = Some s' -> s'.(cst) <> CDone -> s'.(bp) = None /\ s'.(cwk) = wk_of s.(bp).
 Proof. exact consumer_poll_takes_backpressure. Qed.
 Print Assumptions C12_consumer_poll_takes_backpressure.
 
@@ -73,9 +103,11 @@ Proof. vm_compute. split; reflexivity. Qed.
 
 (* C12.4 terminal completeness, for every input and every depth >= 1 (default and set_backpressure_depth): when no
    mandatory actor can move (the environment has made every item available and ended the input; the consumer polls
-   whenever it can) and the consumer has not dropped the stream, it has received [f <$> inputs] and then None *)
+   whenever it owes a poll: it is idle or its latest waker has been called; spurious polls [ACProbe] are optional) and
+   the consumer has not dropped the stream, it has received [f <$> inputs] and then None.  Needs the replace fact. *)
 Theorem C12_terminal_complete :
-  forall (F : pfacts) (f : nat -> nat) inputs ext tr s,
+  forall (F : pfacts) (f : nat -> nat), F.(f_poll_next_replaces_waker) = true ->
+  forall inputs ext tr s,
     1 <= F.(f_default_depth) -> Forall (fun a => a <> ACSetDepth 0) tr ->
     run F f (init F inputs ext) tr = Some s ->
     terminal F f s -> dropped s = false ->
